@@ -34,7 +34,7 @@ func Manifest() []byte {
 			"level_claimed": map[string]any{
 				"category":   "other",
 				"text":       "Static analysis (no execution): decides, for every path of the anchored functions on /repo's current source, these structural necessary conditions of the property — " + p.Decides + " It is not a proof of the behavioural property: " + p.NotDecided,
-				"design_ref": "DESIGN.md §4 " + p.ID,
+				"design_ref": "DESIGN.md §4 and Appendix G, " + p.ID,
 			},
 			"level_note": "Trusted base: go/types, golang.org/x/tools v0.50.0 SSA/CFG/VTA call graph, the pbgen+protoc-gen-go overlay that regenerates api/proto Go code (grpc/validate/gateway stubs opaque), and the per-rule idiom/exception tables in analyzer/internal/rules. Obligations are keyed by rule+construct; an anchor that no longer resolves, an unsupported construct at a decisive point or a rule matching fewer instances than confirmed by hand fails closed. Not decided: " + p.NotDecided,
 		})
